@@ -76,6 +76,8 @@ func c09Inputs(tier string) []c09Input {
 	add("multi-output", "yaml", m("b", m("$output", true, "v", 2), "a", m("$output", true, "v", 1), "c", m("$output", true, "v", 3)))
 	add("multi-output-nested", "json", m("a", m("$output", true, "x", m("$output", true, "v", 1), "y", m("$output", true, "v", 2))))
 	add("multi-output-list", "json", m("l", []any{m("$output", true, "v", 1), m("$output", true, "v", 2)}, "k", m("$output", true, "v", 0)))
+	add("multi-output-two-levels-down", "json", m("b", m("x", m("$output", true, "v", 1)), "a", m("y", m("$output", true, "v", 2)), "c", m("z", m("w", m("$output", true, "v", 3)))))
+	add("multi-output-mixed-depths", "yaml", m("b", m("$output", true, "v", 1), "a", m("y", m("$output", true, "v", 2)), "c", []any{m("w", m("$output", true, "v", 3))}))
 	// named repeat products
 	add("repeat-named-2", "json", m("$repeat", m("x", 2, "y", 2), "v", `$"{$repeat:x}{$repeat:y}"`))
 	add("repeat-named-3", "json", m("$repeat", m("b", 2, "a", 2, "c", 2), "v", `$"{$repeat:a}{$repeat:b}{$repeat:c}"`))
@@ -168,6 +170,20 @@ func c09Inputs(tier string) []c09Input {
 			add("plain-tree", "json", plain[i])
 		}
 	}
+	// C11's generator: every tree with at least two selected subtrees (their relative order is observable)
+	sel := gen.NewSet(gen.Alphabet{Scalars: []any{1, true}, Keys: []string{"a", "b", "$output"}, MaxList: 2, MaxMap: 3}, 7)
+	nsel := 0
+	for i := int64(0); i < sel.Len(); i++ {
+		t := sel.At(i)
+		if c09CountSelected(t) < 2 {
+			continue
+		}
+		nsel++
+		if tier == "quick" && nsel%7 != 0 {
+			continue
+		}
+		add("selected-subtrees", "json", t)
+	}
 	// merge pairs from the C01 alphabet (maps with >= 2 keys on both sides)
 	parents := gen.Trees(gen.Alphabet{Scalars: []any{1}, Keys: []string{"a", "b", "c"}, MaxList: 1, MaxMap: 3, NoLists: true}, 4)
 	children := gen.Trees(gen.Alphabet{Scalars: []any{1, 2, "$delete"}, Keys: []string{"a", "b", "$replace"}, MaxList: 1, MaxMap: 3, NoLists: true}, 4)
@@ -190,6 +206,25 @@ func c09Inputs(tier string) []c09Input {
 		}
 	}
 	return ins
+}
+
+// c09CountSelected counts the maps carrying "$output": true.
+func c09CountSelected(v any) int {
+	n := 0
+	switch x := v.(type) {
+	case map[string]any:
+		if b, ok := x["$output"].(bool); ok && b {
+			n++
+		}
+		for _, c := range x {
+			n += c09CountSelected(c)
+		}
+	case []any:
+		for _, c := range x {
+			n += c09CountSelected(c)
+		}
+	}
+	return n
 }
 
 func buildC09(tier string) *core.Plan {
@@ -240,7 +275,7 @@ func buildC09(tier string) *core.Plan {
 	// the hand-picked inputs once more with the maps.Keys/Values call sites under control as well
 	var picked []int
 	for i, in := range ins {
-		if in.Kind != "plain-tree" && in.Kind != "merge-pair" {
+		if in.Kind != "plain-tree" && in.Kind != "merge-pair" && in.Kind != "selected-subtrees" {
 			picked = append(picked, i)
 		}
 	}
